@@ -555,6 +555,7 @@ func (e *Engine) evalSpec(fr *Frame, gen *ssa.Function, args []Val, st *State, o
 	if out == nil || len(res) != 1 {
 		e.unsupported("spec function %s does not return a value", gen.Name())
 	}
+	st.adoptSegs(out)
 	t, ok := res[0].(T)
 	if !ok {
 		e.unsupported("spec function %s returns %T", gen.Name(), res[0])
@@ -581,6 +582,7 @@ func (e *Engine) evalModifies(fr *Frame, gen *ssa.Function, args []Val, st *Stat
 	if len(rets) != 1 {
 		e.unsupported("modifies function with %d returns", len(rets))
 	}
+	st.adoptSegs(rets[0].st)
 	// find stores into the literal array: scan instructions for Store to IndexAddr of the varargs array
 	var out []Val
 	for _, b := range gen.Blocks {
@@ -881,7 +883,8 @@ func (e *Engine) recCall(fr *Frame, st *State, fn *ssa.Function, args []Val, pos
 			// analysis pass (heap reads): the result is irrelevant
 			return T{"rec_analysis", e.sortOf(fn.Signature.Results().At(0).Type())}
 		}
-		return e.recApp(ri, st, args)
+		ri.selfCalls++
+		return e.recAppFuel(ri, st, args, "fu")
 	}
 	ri := e.recInfo[fn]
 	if ri == nil {
@@ -891,8 +894,17 @@ func (e *Engine) recCall(fr *Frame, st *State, fn *ssa.Function, args []Val, pos
 	return e.recApp(ri, st, args)
 }
 
+// recApp applies a recursive spec function from outside its own definition: with fuel for
+// two unfoldings (see buildRec).
 func (e *Engine) recApp(ri *recInfo, st *State, args []Val) Val {
+	return e.recAppFuel(ri, st, args, "(FS (FS FZ))")
+}
+
+func (e *Engine) recAppFuel(ri *recInfo, st *State, args []Val, fuel string) Val {
 	var ts []T
+	if ri.fuel {
+		ts = append(ts, T{fuel, "Fuel"})
+	}
 	for i, h := range ri.heaps {
 		ts = append(ts, e.heap(st, h, ri.sorts[i]))
 	}
@@ -931,7 +943,7 @@ func (e *Engine) buildRec(fr *Frame, fn *ssa.Function) *recInfo {
 	e.dry--
 	reads := e.readRec
 	e.readRec = savedRead
-	ri := &recInfo{name: "rec_" + sanitize(fn.Pkg.Pkg.Name()) + "_" + fn.Name(), result: e.sortOf(fn.Signature.Results().At(0).Type())}
+	ri := &recInfo{name: "rec_" + sanitize(fn.Pkg.Pkg.Name()) + "_" + fn.Name(), result: e.sortOf(fn.Signature.Results().At(0).Type()), fuel: e.P.RecFuel[fn]}
 	for _, h := range sortedKeys(reads) {
 		if strings.HasPrefix(h, "IT_") {
 			continue
@@ -976,8 +988,35 @@ func (e *Engine) buildRec(fr *Frame, fn *ssa.Function) *recInfo {
 	}
 	body := res[0].(T)
 	body.S = e.popLets(body.S)
-	e.emitDecl(fmt.Sprintf("(define-fun-rec %s (%s) %s %s)", ri.name, strings.Join(params, " "), ri.result, body.S))
-	e.trust("recursive spec function " + fn.Name() + " is well-founded (its definition is given to the solver as define-fun-rec)")
+	// The definition is given to the solvers as an uninterpreted function with a fuel argument
+	// and an unfolding axiom that consumes one unit of fuel (the encoding Dafny uses): a call
+	// from a contract can be unfolded twice, which is what one loop iteration or a base case
+	// needs, and never indefinitely (define-fun-rec made the solvers unfold symbolic-depth
+	// recursions without end).  A spec function that does not call itself is a plain macro.
+	var sorts, argNames []string
+	for _, p := range params {
+		f := strings.Fields(strings.Trim(p, "()"))
+		argNames = append(argNames, f[0])
+		sorts = append(sorts, strings.TrimSuffix(strings.TrimPrefix(p, "("+f[0]+" "), ")"))
+	}
+	if !e.P.RecFuel[fn] {
+		// default: the definition itself (define-fun-rec; the solvers unfold it on demand).
+		// `rec name fuel` selects the fuel axiomatisation below instead, for definitions the
+		// solvers would otherwise unfold without end (symbolic depth under quantifiers).
+		e.emitDecl(fmt.Sprintf("(define-fun-rec %s (%s) %s %s)", ri.name, strings.Join(params, " "), ri.result, body.S))
+		e.trust("recursive spec function " + fn.Name() + " is well-founded (its definition is given to the solver as define-fun-rec)")
+		return ri
+	}
+	if ri.selfCalls == 0 {
+		// no recursion: (FS fu)-applications never occur, so the fuel argument is ignored
+		e.emitDecl(fmt.Sprintf("(define-fun %s ((fu Fuel) %s) %s %s)", ri.name, strings.Join(params, " "), ri.result, body.S))
+		return ri
+	}
+	e.emitDecl(fmt.Sprintf("(declare-fun %s (Fuel %s) %s)", ri.name, strings.Join(sorts, " "), ri.result))
+	lhs := fmt.Sprintf("(%s (FS fu) %s)", ri.name, strings.Join(argNames, " "))
+	e.emitDecl(fmt.Sprintf("(assert (forall ((fu Fuel) %s) (! (= %s %s) :pattern (%s))))", strings.Join(params, " "), lhs, body.S, lhs))
+	e.emitDecl(fmt.Sprintf("(assert (forall ((fu Fuel) %s) (! (= %s (%s fu %s)) :pattern (%s))))", strings.Join(params, " "), lhs, ri.name, strings.Join(argNames, " "), lhs))
+	e.trust("recursive spec function " + fn.Name() + " is well-founded (it is axiomatised by its unfolding equation, with fuel for two unfoldings per use)")
 	return ri
 }
 
